@@ -55,6 +55,7 @@ type progCfg struct {
 	nOps      int
 	endings   []int // allowed endings
 	checkInTx bool
+	extraSize uint // bytes added to MaxSize (a maximum that is not a multiple of the page size)
 	extent    uint // if > 0: page ids may reach this bound (file shrunk below its extent)
 	concrete  bool // page contents are concrete sequence numbers instead of solver variables
 }
@@ -72,6 +73,7 @@ const (
 	opFreeNew
 	opPageFlush
 	opAllocRaw
+	opRead
 	numOps
 )
 
@@ -79,12 +81,13 @@ const (
 	endCommit = iota
 	endRollback
 	endClose
+	endFailCommit // Commit with an injected I/O failure
 )
 
 func (c *progCfg) options() Options {
 	o := Options{PageSize: verifPageSize, InitMetaArea: c.metaArea, Prealloc: c.prealloc}
 	if c.maxPages > 0 {
-		o.MaxSize = uint64(c.maxPages) * verifPageSize
+		o.MaxSize = uint64(c.maxPages)*verifPageSize + uint64(c.extraSize)
 	}
 	return o
 }
@@ -310,6 +313,21 @@ func (s *progState) step(tx *Tx, w *refModel) {
 		if rp.dirty {
 			rp.flushed = true
 		}
+	case opRead:
+		if len(w.pages) == 0 {
+			return
+		}
+		i := verifChoose(len(w.pages))
+		rp := &w.pages[i]
+		if rp.raw {
+			return
+		}
+		verifLog("read")
+		p, err := tx.Page(rp.id)
+		verifAssert(err == nil, "a live page can be accessed")
+		buf, berr := p.Bytes()
+		verifAssert(berr == nil && len(buf) == verifPageSize, "a live page can be read")
+		verifAssert(buf[0] == rp.b0 && buf[1] == rp.b1 && buf[verifPageSize-1] == rp.last, "reading inside a write transaction returns the latest contents")
 	case opCheckpoint:
 		verifLog("checkpoint")
 		verifAssert(tx.CheckpointWAL() == nil, "CheckpointWAL succeeds")
@@ -367,10 +385,11 @@ func (s *progState) checkSpace(what string) {
 	}
 	a := &s.f.allocator
 	live := uint(len(s.m.pages))
+	verifAssert(a.maxPages == s.cfg.maxPages, what+": the page limit is the configured maximum size divided by the page size, rounded down")
 	verifAssert(s.availNow()+live+a.metaTotal+2 == a.maxPages, what+": allocatable + live + meta area + 2 == maximum")
 	verifAssert(uint(a.data.endMarker) <= a.maxPages && uint(a.meta.endMarker) <= a.maxPages, what+": file extent within the maximum")
 	sz, _ := s.disk.Size()
-	verifAssert(uint64(sz) <= uint64(a.maxPages)*verifPageSize, what+": file size within the maximum")
+	verifAssert(uint64(sz) <= uint64(s.cfg.maxPages)*verifPageSize+uint64(s.cfg.extraSize), what+": file size within the maximum")
 }
 
 func (s *progState) checkStats(what string) {
@@ -405,6 +424,22 @@ func (s *progState) runTx() int {
 			return endRollback
 		}
 		s.m = w.clone()
+	case endFailCommit:
+		kinds := []int{faultWrite, faultSync, faultShortWrite}
+		kind := kinds[verifChoose(verifParam("failkinds", 2))]
+		ord := verifChoose(verifParam("failords", 2))
+		s.disk.faultKind, s.disk.faultOrd, s.disk.faultBurst = kind, s.disk.counts[kind]+ord, 1
+		verifLogU64("failing commit: fault kind", uint64(kind))
+		verifLogU64("fault ordinal", uint64(ord))
+		n0 := s.disk.nfaults
+		cerr := tx.Commit()
+		s.disk.faultKind = faultNone
+		if cerr == nil {
+			verifAssert(s.disk.nfaults == n0 || kind == faultShortWrite, "Commit succeeds only if no I/O call failed")
+			s.m = w.clone()
+			return endCommit
+		}
+		verifAssert(s.disk.nfaults > n0 || isKind(cerr, OutOfMemory), "Commit fails only because of the injected failure (or OutOfMemory)")
 	case endRollback:
 		verifLog("rollback")
 		verifAssert(tx.Rollback() == nil, "Rollback succeeds")
